@@ -529,7 +529,10 @@ func runCase(w *tr.Writer, seed uint64, idx int, focus string) {
 		case cfg.udp:
 			// UDP: senders are unconnected sockets; every datagram is one event
 			if len(peers) < cfg.maxConns || len(lp) == 0 {
-				c, err := net.Dial("udp", dialAddr)
+				// senders live on other loopback addresses than the listener (127.0.0.1), so a reply that
+				// is addressed wrongly cannot reach them by accident
+				ra, _ := net.ResolveUDPAddr("udp", dialAddr)
+				c, err := net.DialUDP("udp", &net.UDPAddr{IP: net.IPv4(127, 0, 0, byte(2+len(peers)%3))}, ra)
 				if err != nil {
 					continue
 				}
